@@ -24,7 +24,7 @@ import (
 func init() {
 	register(stream{
 		name: "chain",
-		rule: "real signed delegations (sealed, then decoded) and invocations over a pool of 5 Ed25519 principals, checked with ExecutionAllowed / ExecutionAllowedWithArgsHook against a map-backed loader. Families: (principals) every chain of ≤ K links (K=2 quick, 3 thorough) over every (issuer, audience, subject∈{0,1,2,absent}) assignment × every invocation (issuer, subject) with a varying audience; (commands) conforming chains of 1–3 links with every assignment of a 6-command lattice (top, parent, child, sibling, shared textual prefix) to invocation and links; (time) every present/absent/past/future combination of not-before and expiration on the invocation and each link; (policy) constraining statements distributed over every link × argument maps, with and without an argument hook (replacing, failing); (random) chains of ≤ 8 (40 thorough) links with 0–2 deviations of any kind at any position, missing and duplicated proofs, irrelevant fields varied; (histories) the same invocation token validated several times while the loader's content, the argument hook and the wall clock (a bound two seconds away) change between validations. Non-trivial = the chain has ≥ 1 link and at most two clause groups fail. Distinct = distinct protocol lines.",
+		rule: "real signed delegations (sealed, then decoded) and invocations over a pool of 5 Ed25519 principals, checked with ExecutionAllowed / ExecutionAllowedWithArgsHook against a map-backed loader. Families: (principals) every chain of ≤ K links (K=2 quick, 3 thorough) over every (issuer, audience, subject∈{0,1,2,absent}) assignment × every invocation (issuer, subject) with a varying audience; (commands) conforming chains of 1–3 links with every assignment of a 6-command lattice (top, parent, child, sibling, shared textual prefix) to invocation and links; (time) every present/absent/past/future combination of not-before and expiration on the invocation and each link; (policy) constraining statements distributed over every link × argument maps, with and without an argument hook (replacing, failing); (random) chains of ≤ 8 (40 thorough) links with 0–2 deviations of any kind at any position, missing and duplicated proofs, irrelevant fields varied; (histories) the same invocation token validated several times while the loader's content, the argument hook and the wall clock (a bound two seconds away) change between validations. Added later: every scenario is decided FIVE ways on one token (twice in a row; through the hook entry point with an identity hook; with a hook that first validates an unrelated invocation; with a hook that first validates the scenario's repaired twin) and each verdict is held against the model; after construction the caller adds a key to the Args value it handed in (the token must not change); (twins) principals 5–9 = the key bytes of 0–4 under another key-type codec at every naming position; (key-types) RSA, P-256 and secp256k1 principals at every role, delegations decoded and as constructed; (command-pairs) every ordered pair of valid commands ≤ 4 (5) bytes over {/,a,b} as delegated/invoked and root/leaf, decided one after the other; (after-root, variant-cid, long-then-cut) proofs listed after the root, links named by another CID over the same digest, a 12-link chain alternating with cut versions of itself; (policy-long) 15…1000 always-true statements around the deciding one; (fresh-nbf, iat-future) constructed delegations with not-before = now, invocations issued in the future over not-yet-active links; (shared-policies) delegations built from policy slices that share one backing array; IsValidAt probes at years 1…100000 and 2^53-1 s. Non-trivial = the chain has ≥ 1 link and at most two clause groups fail. Distinct = distinct protocol lines.",
 		run:  runChainStream,
 		eval: evalChain,
 		cmp:  cmpChain,
